@@ -58,7 +58,7 @@ CLAIMED = {
             "the minimum block size (disjunctive rule accepting either repair style). Numeric values are not "
             "decided.", "4/C04"),
     "C10": ("STATE-ENUM over static/type facts + RESET append-before-define typestate (interprocedural, closures "
-            "included) + STALE-READ first-access analysis (interprocedural: the first access of a call to the elements of a reusable buffer is a write / clear / fill, `resize` does not define the retained prefix) + KEY injectivity slicing incl. control dependence (a key value chosen by a non-discriminant branch) + LOCKORDER graph; quick tier analyses default+decode and default+decode+experimental",
+            "included) + STALE-READ first-access analysis (interprocedural: the first access of a call to the elements of a reusable buffer is a write / clear / fill, `resize` does not define the retained prefix) + KEY injectivity slicing incl. control dependence (a key value chosen by a non-discriminant branch) + RECYCLE (entries removed from a keyed cache are not used again) + LOCKORDER graph; quick tier analyses default+decode and default+decode+experimental",
             "The inventory of everything that survives a call is complete (only thread-local reusable storages and "
             "immutable Freeze statics), no reusable buffer is appended to before being cleared/reset/resized, cache "
             "keys are injective in the lookup parameters, no storage is re-entered while borrowed, and the first thing a call does "
@@ -66,7 +66,7 @@ CLAIMED = {
             "retained from an earlier call is reported with the call chain). That the writes cover every index read later "
             "is not decided (runtime lengths).", "4/C10"),
     "C11": ("SHIFTGUARD (dominating zero-width guard for `BITS - n` shifts, call-site guards for private helpers) + "
-            "CALLSET + SIBLING + FILLSTATE (storage growth dominated by a read of the word-level fill) + GROWTH/ceil (resize amount = ceil(bits/word) on a full period of the extracted summary) + LENGTH (effect summary of self.bitlength per sink operation = initial + ideal bit count, as linear forms over case leaves) + PADFORMULA + WIDTH/const + WORDCOUNT (storage length = ceil(bit length / word) preserved by every operation, summaries evaluated over offsets x counts x operand types) + TWOC/default (provided write_twoc hands the n-bit two's-complement code to a required method for n in 1..=64) + OPERAND (the mask of write_msbs and the alignment of write_lsbs, extracted by a flow-sensitive backward slice, evaluated for every n in 1..=BITS and every operand width; nothing touches the sink beside that normalisation) + compile-fail witnesses for the sealed operand traits",
+            "CALLSET + SIBLING + FILLSTATE (storage growth dominated by a read of the word-level fill) + GROWTH/ceil (resize amount = ceil(bits/word) on a full period of the extracted summary) + LENGTH (effect summary of self.bitlength per sink operation = initial + ideal bit count, as linear forms over case leaves) + PADFORMULA + WIDTH/const + WORDCOUNT (storage length = ceil(bit length / word) preserved by every operation, summaries evaluated over offsets x counts x operand types) + TWOC/default (provided write_twoc hands the n-bit two's-complement code to a required method for n in 1..=64) + OPERAND (the mask of write_msbs and the alignment of write_lsbs, extracted by a flow-sensitive backward slice, evaluated for every n in 1..=BITS and every operand width; nothing touches the sink beside that normalisation) + DEFAULT/bytes-aligned (the provided write_bytes_aligned is align + one 8-bit write per element, in order) + compile-fail witnesses for the sealed operand traits",
             "Narrow: zero-width operands are guarded in every sink implementation, default methods are built only "
             "from required ones, both write_bytes_aligned overrides align first, foreign operand types cannot be "
             "written, and every operation of both in-memory sinks advances the recorded bit length by exactly the "
@@ -87,7 +87,7 @@ CLAIMED = {
             "bodies (shift (4-BPS)*8, little-endian constructor). Converted values are not decided.", "4/C14"),
     "C15": ("LAYOUT reader<->writer: field-width token sequences of every nom parser (EFFECT engine in reader mode) "
             "vs the event sequence of the matching BitRepr::write + TABLE reader<->writer on all code tables + AGREE "
-            "dataflow (which read feeds which constructor argument) + WIDTH type rule on the decoder accumulator + AGREE/predictor-order on the encoder's construction sites (shared with C02) + ACCEPT/frame (the frame reader's cross-checks evaluated for the sample-size answers the writer emits) + accumulator-width at every instantiation of a generic decode helper + LASTFLAG/maintained (nothing installs metadata blocks behind add_metadata_block, shared with C02)",
+            "dataflow (which read feeds which constructor argument) + WIDTH type rule on the decoder accumulator + AGREE/predictor-order on the encoder's construction sites (shared with C02) + ACCEPT/frame (the frame reader's cross-checks evaluated for the sample-size answers the writer emits) + accumulator-width at every instantiation of a generic decode helper + LASTFLAG/maintained (nothing installs metadata blocks behind add_metadata_block, shared with C02) + the history rules of C10 (RESET / STALE-READ / PLAIN-STATE cover the decoder's reusable storages) + IMPLICIT of C16 (no arithmetic assertion on the stream-parse path for values the writer can emit)",
             "Reader and writer agree on every field boundary, order and code for STREAMINFO, metadata header, frame "
             "header, all 16/16/8/16 code tables incl. extra bytes, subframe header and type codes with order "
             "formulas, raw samples, LPC parameters, residual (header, per-partition parameter, per-sample shape "
@@ -104,7 +104,7 @@ CLAIMED = {
     "C02": ("TABLE: case-tree summaries of the code-selection functions extracted from MIR and evaluated cell-wise on "
             "the rows of an RFC 9639 oracle + LAYOUT: ordered (width, value) event sequences of the writers (EFFECT "
             "engine) vs the RFC field layout + ORDER/dataflow on alignment and CRC steps + const-evaluated CRC "
-            "generators + AGREE dataflow identity of predictor order / warm-up length + AGREE/partition-length (the extracted summary of the partition-order chooser evaluated on a grid: (block size >> order) > warm-up length, RFC 9639 section 9.2.7) + LASTFLAG/maintained (who can change the metadata vector maintains the is-last flags)",
+            "generators + AGREE dataflow identity of predictor order / warm-up length + AGREE/partition-length (the extracted summary of the partition-order chooser evaluated on a grid: (block size >> order) > warm-up length, RFC 9639 section 9.2.7) + LASTFLAG/maintained (who can change the metadata vector maintains the is-last flags) + RANGE/rice-parameter-lanes (on every path the cost table reaches the minimum reduction through the `lane <= max_p` selection, so the 4-bit field never carries the escape code)",
             "Block-size, sample-rate, sample-size, channel and subframe-type codes equal the RFC tables on every row "
             "(uncommon sizes by interval cells, or the whole 16-bit domain of the extracted summary when a predicate "
             "is not an interval test); STREAMINFO / metadata / frame-header / LPC / residual layouts, marker, sync "
@@ -123,7 +123,7 @@ CLAIMED = {
             "width; STREAMINFO carries those fields in the RFC's positions. Digest values are not decided.", "4/C03"),
     "C05": ("TYPE-SHAPE on the collector + PAIR/dataflow in worker and feeder + SIBLING on the frame encoder incl. "
             "STREAMINFO read/write field disjointness + STATE-ENUM/RESET/PLAIN-STATE/KEY (no state survives a frame "
-            "encoding) + worker-count dataflow + SIBLING/block-loop (both block loops hand every block on, stop only on 0 samples or an error, ask the source for exactly the block_size argument and never consult config.block_size) + STALE-READ (C10) + the C08 EFFECT rules (the modes measure frame sizes differently)",
+            "encoding) + worker-count dataflow + SIBLING/block-loop (both block loops hand every block on, stop only on 0 samples or an error, ask the source for exactly the block_size argument and never consult config.block_size) + STALE-READ and RECYCLE (C10) + the Context fill siblings of C14 (the two modes hash through different fills) + the C08 EFFECT rules (the modes measure frame sizes differently)",
             "Results are collected in Mutex<BTreeMap<usize,_>> keyed by the frame number and drained in order; number, "
             "buffer and key come from one locked buffer in the worker; the feeder numbers buffers under their lock "
             "with a counter stepping once per enqueue; both modes use the same frame encoder, which reads no "
